@@ -11,11 +11,23 @@ Step97(r, c) ==
     LET v == AlphaVal(c)
     IN  IF v < 10 THEN (r * 10 + v) % 97 ELSE (r * 100 + v) % 97
 
+TwoDigits0(n) == <<48 + (n \div 10), 48 + (n % 10)>>
 RECURSIVE Mod97From(_, _, _)
 Mod97From(s, i, r) == IF i > Len(s) THEN r ELSE Mod97From(s, i + 1, Step97(r, s[i]))
 
 \* Residue of the decimal expansion of an alphanumeric text.
 Mod97(s) == Mod97From(s, 1, 0)
+
+\* The decimal expansion itself, as a text of digits (what IBAN.numeric denotes): digits stand for
+\* themselves, letters for two digits; read as a number, leading zeros do not count.
+RECURSIVE ExpansionFrom(_, _)
+ExpansionFrom(s, i) ==
+    IF i > Len(s) THEN <<>>
+    ELSE (IF AlphaVal(s[i]) < 10 THEN <<s[i]>> ELSE TwoDigits0(AlphaVal(s[i]))) \o ExpansionFrom(s, i + 1)
+Expansion(s) == ExpansionFrom(s, 1)
+RECURSIVE StripZeros(_)
+StripZeros(d) == IF Len(d) > 1 /\ d[1] = 48 THEN StripZeros(Tail(d)) ELSE d
+NumericText(s) == LET d == StripZeros(Expansion(s)) IN IF d = <<>> THEN <<48>> ELSE d
 
 \* BBAN followed by country code and check digits: the ISO 13616 rearrangement.
 Rearranged(s) == Tail0(s, 4) \o SubSeq(s, 1, 4)
